@@ -12,13 +12,14 @@ Splice into harness/props/c14.py (dispatch on case.get('fmt') == 'bpch'):
     # py_check():  if BP.is_bpch(case): return BP.py_check(case, obs)
     # nontrivial():if BP.is_bpch(case): return BP.nontrivial(case, obs)
 
-The Coq term is `(BP <qualified C18 case record>)`: every field / constructor is written with its full path because Corr/C09.v
-(which C14 re-exports) cannot Import Model.Bpch next to Model.Uamiv (shared names)."""
+The Coq term is `(BP <qualified C18 case record>)` of Corr/C14.v's `case14` (the CAMx terms are wrapped as `(Old ...)` by the tail block of
+c14.py): every field / constructor is written with its full path because Corr/C14.v re-exports Corr/C09.v, whose Model.Uamiv shares
+names with Model.Bpch."""
 import re
 from harness import common as C
 from harness.props import c18 as M
 
-REGION_TRACER_CUT = 16      # = Corr/BpchPrefix.v bpch_tracer_cut_region; finding C14-bpch-first-block-tracer-cut
+REGION_TRACER_CUT = 18      # = Corr/BpchPrefix.v bpch_tracer_cut_region; finding C14-bpch-first-block-tracer-cut
 
 
 def is_bpch(case):
